@@ -10,6 +10,12 @@ def run(ctx):
                           "s13_child_raises_caught", "s14_amo_exhaust", "s15_cb_uncaught", "s17_child_wfc_inside", "s19_wfcfail_then_wait",
                           {"nodes": [{"k": "step", "val": v} for v in (1, 2, 4)] + [{"k": "wait"}, {"k": "step", "val": 5}, {"k": "step", "val": 6}]},
                           {"nodes": [{"k": "child", "body": [{"k": "step", "val": 3}, {"k": "step", "val": 9}]}, {"k": "wait"}, {"k": "step", "val": 0}]},
+                          # user code that modifies delivered values in place (lists, dicts), replayed several times in one process, and
+                          # two positions with equal recorded values: no later delivery may see the modification
+                          {"nodes": [{"k": "step", "val": 1, "mutate": True}, {"k": "wait"}, {"k": "step", "val": 1, "mutate": True}, {"k": "wait"},
+                                     {"k": "step", "val": 0, "mutate": True}, {"k": "wait"}, {"k": "step"}]},
+                          {"nodes": [{"k": "child", "mutate": True, "body": [{"k": "step", "val": 1, "mutate": True}, {"k": "step", "val": 1}]},
+                                     {"k": "wait"}, {"k": "cb", "between": [], "mutate": True}, {"k": "wait"}, {"k": "wait"}]},
                           # failures whose exception carries an empty / no message (a falsy field of the recorded error)
                           {"nodes": [{"k": "step", "fail": -1, "max": 1, "caught": True, "errmsg": ""}, {"k": "wait"},
                                      {"k": "step", "fail": -1, "max": 2, "caught": True, "errmsg": "<none>", "errtype": "ValueError"}, {"k": "wait"}]},
